@@ -17,7 +17,8 @@ RULE = ("Complete enumeration. Compression maps: every n in 1..N_MAX (quick 150 
         "the same order. Because the helpers are memoised, a second sub-check walks the whole (N,W) domain in other query "
         "orders inside one process (W descending, N and W descending, W outer, seeded shuffles). A Hypothesis sub-check adds random finite float matrices. Every enumerated item is non-trivial "
         "except n=1 / (N,W)=(1,1); distinct by construction (one item per n / per (N,W))."
-        ' Round trips also for float32/float16/int64/int32/int16/uint8/bool matrices with values up to the type maximum; every sub-check also in a python -O process.')
+        ' Round trips also for float32/float16/int64/int32/int16/uint8/bool matrices with values up to the type maximum; every sub-check also in a python -O process.'
+        ' Two results of one size are kept alive; one pass queries with NumPy integer sizes first in its process.')
 ASSUMPTIONS = ["private helper names are taken from the property's anchors; if one disappears the check exits 2 (machinery), not 1",
                "values: float equality (==), so -0.0/+0.0 and NaN payloads are outside the statement; |x| <= 1e300"]
 
@@ -78,7 +79,7 @@ def check_compress(n, t):
         got = uv._compressed_index(r, c, n)
         if isinstance(got, bool) or not isinstance(got, (int, np.integer)) or int(got) != k:
             raise Violation(f"_compressed_index({r},{c},{n}) = {got!r}, expected row-major rank {k}")
-    t.add("index_pairs_checked", m)
+    t.add("index_pairs_checked", int(m))
     # coordinates below the diagonal must be rejected, not mapped somewhere
     if n >= 2:
         try:
@@ -147,7 +148,7 @@ def check_classes(N, W, t):
     expected_classes = N * (N + 1) // 2 + (W - 1) * N * N
     if ncls != expected_classes:
         raise Violation(f"(N={N},W={W}) has {ncls} classes, expected {expected_classes}")
-    t.add("classes_checked", ncls)
+    t.add("classes_checked", int(ncls))
     t.add("positions_checked", len(seen))
 
 
@@ -167,6 +168,7 @@ def execute_enum(case, t):
 def enumerate_orders(tier):
     """The helpers are memoised, so what an (N,W) query returns could depend on the queries made before it in the same
     process.  Each case walks the whole stated (N,W) domain (and the compression sizes) in one order."""
+    yield {"kind": "order", "order": "numpy_integers"}       # first: its shard's process has answered nothing yet
     yield {"kind": "order", "order": "W_descending"}
     yield {"kind": "order", "order": "N_descending_W_descending"}
     yield {"kind": "order", "order": "W_outer_descending"}
@@ -185,9 +187,15 @@ def execute_order(case, t):
         pairs = [(N, W) for N in range(Nmax, 0, -1) for W in range(Wmax, 0, -1)]
     elif o == "W_outer_descending":
         pairs = [(N, W) for W in range(Wmax, 0, -1) for N in range(1, Nmax + 1)]
+    elif o == "numpy_integers":
+        # sizes that come out of an np.arange sweep or an array's shape arithmetic: NumPy integer scalars, not Python ints
+        kinds = [np.int64, np.int32, np.intp, np.uint16]
+        pairs = [(kinds[(N + W) % 4](N), kinds[(N * W) % 4](W)) for N in range(1, Nmax + 1) for W in range(1, Wmax + 1)]
     else:
         random.Random(int(o.split("-")[1]) + 77).shuffle(pairs)
-    sizes = sorted({N * W for (N, W) in pairs}, reverse=True)
+    sizes = sorted({int(N) * int(W) for (N, W) in pairs}, reverse=True)
+    if o == "numpy_integers":
+        sizes = [np.int64(n) for n in sizes]
     try:
         for n in sizes[:40]:
             check_compress(n, t)
@@ -195,6 +203,11 @@ def execute_order(case, t):
             check_classes(N, W, t)
     except Violation as v:
         raise Violation(f"{v.message} [queried in the order '{o}', i.e. after other sizes in the same process]", **v.detail)
+    except Exception as e:
+        if o != "numpy_integers":
+            raise
+        raise Violation(f"the index maps cannot be queried with NumPy integer sizes/coordinates (they answer the same query with "
+                        f"Python ints): {type(e).__name__}: {str(e)[:200]}")
     t.cls(f"order_{o.split('-')[0]}")
     t.mark_nontrivial({"order": o, "pairs": len(pairs)})
 
@@ -264,6 +277,18 @@ def execute_float(case, t):
         raise Violation(f"compress->reinflate changed a symmetric float matrix (n={n}, scale={case['scale']})")
     if not np.array_equal(back, back.T):
         raise Violation("re-inflated matrix is not exactly symmetric")
+    # two results of the same size alive at once: each call returns its own array
+    other = np.triu(a.T * 0.5 + 1.0) + np.triu(a.T * 0.5 + 1.0, 1).T
+    c1 = mc.compress_matrix(sym)
+    keep1 = np.array(c1, copy=True)
+    c2 = mc.compress_matrix(other)
+    if c1 is c2 or not np.array_equal(c1, keep1):
+        raise Violation(f"the vector returned by compress_matrix changed when another matrix of the same size was compressed (n={n})")
+    r1 = mc.reinflate_matrix(c1)
+    keepr = np.array(r1, copy=True)
+    r2 = mc.reinflate_matrix(c2)
+    if r1 is r2 or not np.array_equal(r1, keepr):
+        raise Violation(f"the matrix returned by reinflate_matrix changed when another vector of the same size was re-inflated (n={n})")
     v = rng.uniform(-1, 1, size=n * (n + 1) // 2) * case["scale"]
     v0 = v.copy()
     if not np.array_equal(mc.compress_matrix(mc.reinflate_matrix(v)), v0):
